@@ -4,13 +4,37 @@
 //!   replay ink '<ink source>' [ops...]      compile + play; ops: `c` continue maximally, `k<n>` choose n
 //! Output: one JSON object on stdout: {"lines":[..],"errors":[..],"warnings":[..],"result":"ok"|"err:<msg>"}
 use bladeink::story::Story;
+use bladeink::story::errors::{ErrorHandler, ErrorType};
 use bladeink_compiler::Compiler;
+use std::{cell::RefCell, rc::Rc};
+
+struct Obs { log: Rc<RefCell<Vec<String>>> }
+impl bladeink::story::variable_observer::VariableObserver for Obs {
+    fn changed(&mut self, variable_name: &str, value: &bladeink::value_type::ValueType) {
+        let v = match value { bladeink::value_type::ValueType::Int(i) => i.to_string(), bladeink::value_type::ValueType::Bool(b) => b.to_string(), _ => "?".into() };
+        self.log.borrow_mut().push(format!("{variable_name}={v}"));
+    }
+}
+struct Collect { msgs: Rc<RefCell<Vec<String>>> }
+impl ErrorHandler for Collect {
+    fn error(&mut self, message: &str, error_type: ErrorType) {
+        let t = if error_type == ErrorType::Warning { "W" } else { "E" };
+        self.msgs.borrow_mut().push(format!("{t}:{message}"));
+    }
+}
 
 fn play(src: &str, ops: &[String]) -> serde_json::Value {
     let json = match Compiler::new().compile(src) {
         Ok(j) => j,
         Err(e) => return serde_json::json!({"result": format!("compile-error:{e}")}),
     };
+    // op `v<N>` (must be first): pretend the story was compiled by ink version N (raises the version warning)
+    let json = match ops.first().and_then(|o| o.strip_prefix('v')) {
+        Some(v) => json.replacen("\"inkVersion\":21", &format!("\"inkVersion\":{v}"), 1),
+        None => json,
+    };
+    let delivered: Rc<RefCell<Vec<String>>> = Rc::new(RefCell::new(vec![]));
+    let notes: Rc<RefCell<Vec<String>>> = Rc::new(RefCell::new(vec![]));
     let mut story = match Story::new(&json) {
         Ok(s) => s,
         Err(e) => return serde_json::json!({"result": format!("load-error:{e}")}),
@@ -19,7 +43,19 @@ fn play(src: &str, ops: &[String]) -> serde_json::Value {
     let mut result = "ok".to_string();
     let ops: Vec<String> = if ops.is_empty() { vec!["c".into()] } else { ops.to_vec() };
     for op in ops {
-        if op == "c" {
+        if let Some(var) = op.strip_prefix("o:") {
+            if let Err(e) = story.observe_variable(var, Rc::new(RefCell::new(Obs { log: notes.clone() }))) { result = format!("err:{e}"); }
+            notes.borrow_mut().push("|".into());
+        } else if op == "r" {
+            if let Err(e) = story.reset_state() { result = format!("err:{e}"); }
+        } else if op == "h" {
+            story.set_error_handler(Rc::new(RefCell::new(Collect { msgs: delivered.clone() })));
+        } else if op == "1" {
+            match story.cont() {
+                Ok(l) => lines.push(l),
+                Err(e) => { result = format!("err:{e}"); }
+            }
+        } else if op == "c" {
             while story.can_continue() {
                 match story.cont() {
                     Ok(l) => lines.push(l),
@@ -35,6 +71,8 @@ fn play(src: &str, ops: &[String]) -> serde_json::Value {
         "errors": story.get_current_errors(),
         "warnings": story.get_current_warnings(),
         "result": result,
+        "delivered": *delivered.borrow(),
+        "notifications": *notes.borrow(),
     })
 }
 
